@@ -5,11 +5,10 @@ INVARIANTS Emit Identities
 CHECK_DEADLOCK FALSE
 CONSTANTS
   Mode = "wrap"
-  MaxDepth = 3
-  WrapSet = "mid"
+  MaxDepth = 4
+  W1 = "mid"
+  W2 = "mid"
+  W3 = "mid"
   SlRange = 2
   EmitAst = FALSE
-  ExcludeFilterOnNonArray = TRUE
-  ExcludeMergeNoOverride = TRUE
-  ExcludeNotBeforePipe = TRUE
-  ExcludePipeIntoLiteral = TRUE
+  KnownDeviations = {"filter-on-non-array", "merge-no-override", "operator-before-pipe", "pipe-into-literal", "argument-context-leak", "projection-skips-null", "sort-singleton", "null-vs-reference-equality", "parenthesised-operand", "multiselect-leading-star", "by-key-error-ignored"}
